@@ -310,6 +310,48 @@ int main(int argc, char** argv)
                       3);
     check_set<nitro::lang::unordered_set<B>>("unordered_set<struct<string,double,int>>", gb, seed + 1);
 
+    // --- the hash follows the members: an object that is modified after it has been hashed (or used as a
+    // key) must hash like a freshly built equal value
+    {
+        long checked = 0;
+        for (std::size_t i = 0; i < ga.size(); ++i)
+        {
+            A x = ga[i];
+            (void)hash(x);
+            const A& y = ga[(i * 7 + 3) % ga.size()];
+            x.a = y.a;
+            x.b = y.b;
+            x.c = y.c;
+            ++checked;
+            if (!(x == y) || hash(x) != hash(y))
+                viol("struct<int8,int,longlong>:hash-stale-after-member-change", std::to_string(i));
+            A z = ga[i];
+            (void)hash(z);
+            z = y; // whole-object assignment
+            if (!(z == y) || hash(z) != hash(y))
+                viol("struct<int8,int,longlong>:hash-stale-after-assignment", std::to_string(i));
+        }
+        for (std::size_t i = 0; i < gb.size(); ++i)
+        {
+            B x = gb[i];
+            nitro::lang::unordered_set<B> probe;
+            probe.insert(x);
+            const B& y = gb[(i * 5 + 1) % gb.size()];
+            x.s = y.s;
+            x.d = y.d;
+            x.i = y.i;
+            ++checked;
+            if (!(x == y) || hash(x) != hash(y))
+                viol("struct<string,double,int>:hash-stale-after-member-change", std::to_string(i));
+            B m = gb[i];
+            (void)hash(m);
+            B moved_to(std::move(m));
+            if (!(moved_to == gb[i]) || hash(moved_to) != hash(gb[i]))
+                viol("struct<string,double,int>:hash-wrong-after-move", std::to_string(i));
+        }
+        stats["mutate-after-hash-checks"] = checked;
+    }
+
     // --- C: nested pair + tuple
     std::vector<C> gc;
     for (int a : { 0, 1, -5 })
